@@ -143,6 +143,16 @@ type drv struct {
 	docReported map[string]bool
 }
 
+type poseidonPrime struct{ p *big.Int }
+
+func (h poseidonPrime) Hash(in []*big.Int) (*big.Int, error) {
+	return merklize.PoseidonHasher{}.Hash(in)
+}
+func (h poseidonPrime) HashBytes(b []byte) (*big.Int, error) {
+	return merklize.PoseidonHasher{}.HashBytes(b)
+}
+func (h poseidonPrime) Prime() *big.Int { return new(big.Int).Set(h.p) }
+
 func hasherSet() []merklize.Hasher {
 	p61, _ := new(big.Int).SetString("2305843009213693951", 10)
 	return []merklize.Hasher{
@@ -153,6 +163,11 @@ func hasherSet() []merklize.Hasher {
 		// Prime() hands out the stored modulus itself: in-place arithmetic on it corrupts the hasher
 		hashers.Mod{P: new(big.Int).Set(constants.Q), SaltBytes: []byte("shr:"), Name: "shared-Q", ShareP: true},
 		hashers.Mod{P: new(big.Int).Set(p61), SaltBytes: []byte("s61:"), Name: "shared-2^61-1", ShareP: true},
+		// hashes exactly like the default Poseidon hasher (package-level paths still address the
+		// tree) but reports another Prime(): values whose field mapping depends on the prime
+		// (negative integers, dateTime before 1970) tell which hasher hashed them
+		poseidonPrime{p: new(big.Int).Set(p61)},
+		poseidonPrime{p: big.NewInt(2147483647)},
 	}
 }
 
@@ -536,6 +551,44 @@ func (d *drv) observe(mz *merklize.Merklizer, h merklize.Hasher, mapKey string, 
 		}
 		if k := kindOf(val); k != kindImplied(r.dt) {
 			d.rep.Fail("c10-kind", fmt.Sprintf("Value of %v (%s) has Go kind %d, datatype implies %d", v.Parts, r.dt, k, kindImplied(r.dt)), withPath())
+		}
+	}
+	// paths built with the package-level constructor / a zero Path carry the package default
+	// hasher; when they address the same key, Proof must still hash the Value with the
+	// MERKLIZER's hasher
+	{
+		var zp merklize.Path
+		_ = zp.Append(v.Parts...)
+		pp, perr := merklize.NewPath(v.Parts...)
+		for i, q := range []merklize.Path{pp, zp} {
+			if i == 0 && perr != nil {
+				continue
+			}
+			q := q
+			if k, err := q.MtEntry(); err != nil || k.String() != mapKey {
+				continue
+			}
+			d.rep.Count("package-level-path-proofs")
+			var pv *big.Int
+			kind := -1
+			o := mzrun.Guard(10*time.Second, func() error {
+				_, val, err := mz.Proof(context.Background(), q)
+				if err != nil {
+					return err
+				}
+				if val == nil {
+					return fmt.Errorf("no value")
+				}
+				kind = kindOf(val)
+				x, err := val.MtEntry()
+				pv = x
+				return err
+			})
+			if o.Class != "ok" || pv == nil || pv.Cmp(leaf) != 0 || kind != kindImplied(r.dt) {
+				d.rep.Fail("c10-proof-value-package-path", fmt.Sprintf("Proof(%v) through a %s: Value hashes to %v (%s %s), kind %d; leaf is %s", v.Parts,
+					[]string{"merklize.NewPath path", "zero Path"}[i], pv, o.Class, o.Msg, kind, leaf), withPath())
+				break
+			}
 		}
 	}
 	r.raw, r.rawErr = mz.RawValue(p)
